@@ -235,6 +235,10 @@ PROPS["C09"]["tasks"] = PROPS["C09"]["tasks"] + ["Simulator._add_agent"]      # 
 # the shock events compute their trigger times from the recorded session start (C14 depends on the session generation block)
 PROPS["C12"]["tasks"] = PROPS["C12"]["tasks"] + ["json_extends"]
 PROPS["C14"]["tasks"] = PROPS["C14"]["tasks"] + ["SequentialRunner._generate_sessions[session]"]
+# round 7: the properties of the matching core and of price rounding hold for runs only if the runner calls the market in the proved order (before-order hooks BEFORE acceptance,
+# the session's execution switch consulted AFTER the hooks): the per-order blocks of _handle_orders are dependencies of C01-C04, C08, C19 as well
+for _p in ("C01", "C02", "C03", "C04", "C08", "C19"):
+    PROPS[_p]["tasks"] = PROPS[_p]["tasks"] + [t for t in RUNNER_ELEMS if t not in PROPS[_p]["tasks"]]
 from .census import CALLERS as _CALLERS
 for _g, (_ps, _r, _t) in _CALLERS.items():
     for _p in _ps:
